@@ -96,7 +96,10 @@ fn wakes() -> RunResult {
         }
     }
     let capacity = 1u32 << sim::range("ring.capacity.log2", 1, 5);
-    sim::log(|| format!("{tasks} tasks{}, {threads} waker threads, {}, cross-thread queue of {sync_queue}, ring capacity {capacity}; deliveries {deliveries:?}; {cfg:?}", if root_waits { " and the root future" } else { "" }, if external_loop { "loop driven from outside" } else { "block_on" }));
+    // receives on silent sockets, handed to the driver in the first turn: with as many of them as the ring has
+    // entries the submission queue is full when the driver arms its notifier
+    let io_load = [0usize, 0, 0, capacity as usize, capacity as usize - 1, 1, 3][sim::choose("io.load", 7)].min(16);
+    sim::log(|| format!("{tasks} tasks{}, {threads} waker threads, {}, cross-thread queue of {sync_queue}, ring capacity {capacity}, {io_load} receives on silent sockets; deliveries {deliveries:?}; {cfg:?}", if root_waits { " and the root future" } else { "" }, if external_loop { "loop driven from outside" } else { "block_on" }));
 
     let errs = SharedErrs::default();
     let events: Vec<Arc<Event>> = (0..n_events).map(|_| Arc::new(Event::default())).collect();
@@ -116,6 +119,17 @@ fn wakes() -> RunResult {
                     rt.spawn(async move {
                         Wait(ev).await;
                         done[k].store(true, SeqCst);
+                    })
+                })
+                .collect();
+            let _load: Vec<compio_runtime::JoinHandle<()>> = (0..io_load)
+                .filter_map(|_| std::os::unix::net::UnixStream::pair().ok())
+                .map(|(a, b)| {
+                    rt.spawn(async move {
+                        let _silent_peer = b;
+                        if let Ok(s) = compio_net::UnixStream::from_std(a) {
+                            let _ = compio_io::AsyncRead::read(&mut &s, Vec::<u8>::with_capacity(4)).await;
+                        }
                     })
                 })
                 .collect();
@@ -198,6 +212,7 @@ fn wakes() -> RunResult {
             for ev in events.iter() {
                 ev.waker.lock().unwrap().take();
             }
+            drop(_load);
             drop(rt);
             let stuck: Vec<usize> = (0..n_events).filter(|&k| !done[k].load(SeqCst)).collect();
             if !stuck.is_empty() {
